@@ -231,6 +231,32 @@ func (s *session) execFS(op string, a []string) string {
 			return "err:write"
 		}
 		return "ok"
+	case "cpblk":
+		// cpblk d file src dst len: len bytes at src are written over the bytes at dst (a duplicated / misdirected block)
+		p := filepath.Join(s.dir(a[0]), a[1])
+		o1, _ := strconv.Atoi(a[2])
+		o2, _ := strconv.Atoi(a[3])
+		n, _ := strconv.Atoi(a[4])
+		b, err := os.ReadFile(p)
+		if err != nil {
+			return "err:open"
+		}
+		if o1+n > len(b) || o2+n > len(b) {
+			return "err:range"
+		}
+		tmp := append([]byte(nil), b[o1:o1+n]...)
+		copy(b[o2:o2+n], tmp)
+		// the same inode is rewritten in place: a database that has the file open sees the damage
+		f, err := os.OpenFile(p, os.O_WRONLY, 0)
+		if err != nil {
+			return "err:open"
+		}
+		_, err = f.WriteAt(b[o2:o2+n], int64(o2))
+		f.Close()
+		if err != nil {
+			return "err:write"
+		}
+		return "ok"
 	case "swapblk":
 		// swapblk d file off1 off2 len: two non-overlapping byte ranges of equal length change places
 		p := filepath.Join(s.dir(a[0]), a[1])
